@@ -143,6 +143,7 @@ def gen(H, tier):
             "pop": 2 + H.draw(7), "hc_n": 1 + H.draw(5), "budget": 1 + H.draw(min(n, 40)),
             "batches": [1 + H.draw(5) for _ in range(8)],
             "other_problem": bool(H.draw(3) == 2),
+            "batch_forms": [H.pick(["list", "list", "iter", "generator"]) for _ in range(4)],
             "rtype": H.pick(["float", "float", "float", "int", "np.float64", "np.int64", "np.uint8", "np.uint64"]),
             "seeded_restart": bool(H.draw(5) == 4),
             "resume": H.pick([None, None, None, "again", "rs", "hc", "opo", "gp"]), "resume_extra": H.draw(12)}
@@ -237,7 +238,8 @@ def run(ctx):
                         st.shadow = False
                     ctx.faults["carry_over"] += 1
                 st.presented += len(group)
-                tracker.evaluate(group)
+                form = cfg["batch_forms"][bi % len(cfg["batch_forms"])]  # the tracker accepts any iterable, one-shot ones included
+                tracker.evaluate(group if form == "list" else (iter(group) if form == "iter" else (x for x in group)))
         else:
             algo = {"rs": RandomSearch, "hc": HC, "opo": OnePlusOne, "gp": GeneticProgramming, "gp_eval": GeneticProgramming}[driver]
             kw = {}
